@@ -159,7 +159,7 @@ example : (letI := fieldNum ℚ id; ((⟨⟨0, 0⟩, ⟨2, 4⟩⟩ : Aabb2 ℚ).
 /-! ## `clip_halfspace_polygon`: nothing of the polygon's boundary inside the half-space is lost -/
 
 /-- the edges of a closed polygon in the order `clip_halfspace_polygon` visits them: `(last, v₀), (v₀, v₁), …, (vₙ₋₂, vₙ₋₁)` -/
-def cyclicEdges (poly : List (V3 K)) : List (V3 K × V3 K) :=
+def cyclicEdgesT (poly : List (V3 K)) : List (V3 K × V3 K) :=
   match poly.getLast? with
   | none => []
   | some last => (last :: poly).zip poly
@@ -240,11 +240,11 @@ private theorem keeps' (c n : V3 K) (poly : List (V3 K)) (p : V3 K) (hp : p ∈ 
       simp [this]
 
 /-- the crossing point of a strictly crossed polygon edge is an output vertex -/
-private theorem crossing_mem (c n : V3 K) (poly : List (V3 K)) (a b : V3 K) (hab : (a, b) ∈ cyclicEdges poly)
+private theorem crossing_mem (c n : V3 K) (poly : List (V3 K)) (a b : V3 K) (hab : (a, b) ∈ cyclicEdgesT poly)
     (hs : StrictlyAcross c n a b) (hg : eps52 K < |hsVal c n b - hsVal c n a|) :
     ∃ t, 0 < t ∧ t < 1 ∧ hsVal c n (segPt a b t) = 0 ∧ segPt a b t ∈ @clipHalfspacePolygon K (fieldNum K sq) c n poly := by
   letI : Num K := fieldNum K sq
-  simp only [cyclicEdges] at hab
+  simp only [cyclicEdgesT] at hab
   simp only [clipHalfspacePolygon]
   split at hab
   · simp at hab
@@ -261,7 +261,7 @@ threshold `line_toi_with_halfspace` answers "parallel" and the code drops the cr
 excluded here). Together with `clip_halfspace_polygon_sound` (every output vertex is a kept vertex or a crossing point): the
 boundary of the output polygon restricted to the input's edges is exactly (input boundary) ∩ (half-space). -/
 theorem clip_halfspace_polygon_boundary_complete (c n : V3 K) (poly : List (V3 K)) (a b : V3 K)
-    (hab : (a, b) ∈ cyclicEdges poly)
+    (hab : (a, b) ∈ cyclicEdgesT poly)
     (hgap : StrictlyAcross c n a b → eps52 K < |hsVal c n b - hsVal c n a|)
     (s : K) (hs0 : 0 ≤ s) (hs1 : s ≤ 1) (hx : hsVal c n (segPt a b s) ≤ 0) :
     ∃ p ∈ @clipHalfspacePolygon K (fieldNum K sq) c n poly, ∃ q ∈ @clipHalfspacePolygon K (fieldNum K sq) c n poly,
@@ -269,7 +269,7 @@ theorem clip_halfspace_polygon_boundary_complete (c n : V3 K) (poly : List (V3 K
         p = segPt a b tp ∧ q = segPt a b tq ∧ segPt a b s = segPt p q u := by
   letI : Num K := fieldNum K sq
   have hmem : a ∈ poly ∧ b ∈ poly := by
-    simp only [cyclicEdges] at hab
+    simp only [cyclicEdgesT] at hab
     split at hab
     · simp at hab
     · rename_i last hlast
@@ -331,8 +331,8 @@ theorem clip_halfspace_polygon_boundary_complete (c n : V3 K) (poly : List (V3 K
 
 /-! non-vacuity: the unit square against `x ≤ 1/2`: the edge `(0,0,0)-(1,0,0)` is strictly crossed with gap `1 > 2⁻⁵²`; its point
 at `s = 1/4` lies between the output vertices `(0,0,0)` and `(1/2,0,0)` -/
-example : ((⟨0, 0, 0⟩, ⟨1, 0, 0⟩) : V3 ℚ × V3 ℚ) ∈ cyclicEdges [⟨0, 0, 0⟩, ⟨1, 0, 0⟩, ⟨1, 1, 0⟩, ⟨0, 1, 0⟩] := by
-  simp [cyclicEdges]
+example : ((⟨0, 0, 0⟩, ⟨1, 0, 0⟩) : V3 ℚ × V3 ℚ) ∈ cyclicEdgesT [⟨0, 0, 0⟩, ⟨1, 0, 0⟩, ⟨1, 1, 0⟩, ⟨0, 1, 0⟩] := by
+  simp [cyclicEdgesT]
 example : StrictlyAcross (⟨1/2, 0, 0⟩ : V3 ℚ) ⟨1, 0, 0⟩ ⟨0, 0, 0⟩ ⟨1, 0, 0⟩ ∧
     eps52 ℚ < |hsVal (⟨1/2, 0, 0⟩ : V3 ℚ) ⟨1, 0, 0⟩ ⟨1, 0, 0⟩ - hsVal (⟨1/2, 0, 0⟩ : V3 ℚ) ⟨1, 0, 0⟩ ⟨0, 0, 0⟩| := by
   refine ⟨Or.inl ⟨by norm_num [hsVal], by norm_num [hsVal]⟩, ?_⟩
